@@ -701,3 +701,48 @@ RULES = [
     ("C09.R12", "T2", "relative-time events are written as time - CTO only when representable (shared with C10.R4)", r12),
     ("C09.R14", "T4/T9", "codes without a named variant are preserved unmodified (Unknown(x)); code enums compare by derived, variant-sensitive equality", r14),
 ]
+
+
+def r15(ctx):
+    """Variation namesakes on the outstation's writers: inside the match arm of a variation variant named `Group<g>Var<v>`, a call
+    instantiated with an object type named `Group<g'>Var<v'>` uses that very (g, v) - the object written is the one the header
+    announces (`Self::Group42Var7 => write_fixed_size::<Group42Var7, _>`); and every `get_group_var` arm reports the numbers in the
+    variant's name. The header and the object bytes otherwise disagree silently whenever two variations have the same size."""
+    prog = ctx.prog
+    rx = re.compile(r"(?:^|::)Group(\d+)Var(\d+)$")
+    n = m = 0
+    for bd in prog.bodies.values():
+        if "::tests::" in bd.path or "::test::" in bd.path:
+            continue
+        sites = []
+        for b in bd.calls():
+            for ta in (b.term.d.get("targs") or []):
+                mm = rx.search(ta)
+                if mm:
+                    sites.append((b, (int(mm.group(1)), int(mm.group(2)))))
+                    break
+        if sites:
+            for b, gv in sites:
+                arms = [g for g in ctx.guards_at(bd, b.idx) if g.kind == "is" and rx.search(str(g.name)) and g.edge]
+                if not arms:
+                    continue
+                g = min(arms, key=lambda g: len(bd.region_of_edge(g.edge)))
+                mm = rx.search(str(g.name))
+                n += 1
+                ctx.check((int(mm.group(1)), int(mm.group(2))) == gv, "variation-namesake@%s:%s" % (short(bd.path), g.name), "the %s arm is instantiated with Group%dVar%d" % (g.name, gv[0], gv[1]), bd.where(b.idx), bad_detail="the %s arm calls %s instantiated with Group%dVar%d: the header announces one variation and the object bytes are another's" % (g.name, short(b.term.callee or ""), gv[0], gv[1]))
+        if bd.path.endswith("::get_group_var"):
+            sym = ctx.sym(bd)
+            for b, si, st, e in ret_sites(bd, sym):
+                arms = [g for g in ctx.guards_at(bd, b.idx) if g.kind == "is" and rx.search(str(g.name)) and g.edge]
+                if not arms or e[0] != "tuple" or len(e[1]) != 2:
+                    continue
+                g = min(arms, key=lambda g: len(bd.region_of_edge(g.edge)))
+                mm = rx.search(str(g.name))
+                got = (const_value(prog, e[1][0]), const_value(prog, e[1][1]))
+                m += 1
+                ctx.check(got == (int(mm.group(1)), int(mm.group(2))), "group-var@%s:%s" % (short(bd.path), g.name), "%s reports %s" % (g.name, got), bd.where(b.idx), bad_detail="get_group_var reports %s for %s" % (got, g.name))
+    if n < 300 or m < 30:  # counted on the reviewed tree: 343 / 32
+        raise AnchorError("variation namesake sites: %d instantiations, %d get_group_var arms" % (n, m))
+
+
+RULES.append(("C09.R15", "T4-namesake", "a variation arm writes the object type of its own name; get_group_var reports the numbers in the variant's name", r15))
